@@ -1,11 +1,14 @@
 #!/bin/bash
-# tools/seedall.sh : run every seeded change against the quick check of its own property (throw-away worktrees) and write seeded/RESULTS.txt
+# tools/seedall.sh [jobs] : run every seeded change against the quick check of its own property (throw-away worktrees,
+# <jobs> at a time, default 5) and write seeded/RESULTS.txt
 cd /verif || exit 2
-out=seeded/RESULTS.txt; : > $out.tmp
-for d in seeded/*/; do
-  s=$(basename $d); p=${s%%-*}
-  [ -f "$d/patch.diff" ] || continue
+J=${1:-5}
+out=seeded/RESULTS.txt; tmp=$(mktemp -d /tmp/seedall.XXXXXX)
+one() {
+  s=$1
   r=$(tools/seedtest.sh $s 2>&1 | grep -a "seed $s on\|VIOLATION\|patch does not apply" | tr '\n' ' ' | cut -c1-220)
-  echo "$s: $r" >> $out.tmp
-done
-mv $out.tmp $out; cat $out
+  echo "$s: $r" > "$2/$s.txt"
+}
+export -f one
+ls -d seeded/*/ | while read d; do [ -f "$d/patch.diff" ] && basename $d; done | xargs -P $J -I{} bash -c "one {} $tmp"
+cat $tmp/*.txt | sort > $out; rm -rf $tmp; cat $out
